@@ -1391,7 +1391,9 @@ const ITER_ENTRY_POINTS: [(&str, bool); 20] = [
 fn gen_api_surface(g: &mut Gen) {
     let mut counter = 50u64;
     let mut k = 0usize;
-    for (r, c) in [(2usize, 3usize), (3, 2), (1, 4), (4, 1), (2, 5)] {
+    // square starts (the only sizes `from_scalar`, `unit`, `diagonal`, `from_diagonal` can build)
+    // become non-square through the history below
+    for (r, c) in [(2usize, 3usize), (3, 2), (1, 4), (4, 1), (2, 5), (1, 1), (3, 3)] {
         for start in start_lines(r, c) {
             k += 1;
             g.op(format!("{} tag=api", start.0));
@@ -1415,6 +1417,8 @@ fn gen_api_surface(g: &mut Gen) {
             }
             // now every method / impl, at indexes >= 1 (the matrix is (r+2) x c here: non-square)
             let (lr, lc) = (s.r - 1, s.c - 1);
+            g.op("accepts and(not(single(1)),or(range(1,3),single(0))) 6".to_string());
+            g.op(format!("accepts2d rows=not(single(0)) cols=or(single(1),range(2,9)) {} {}", s.r, s.c));
             g.op("api display".to_string());
             g.op("api clone_from".to_string());
             g.op("api into_tensor row column".to_string());
